@@ -506,7 +506,7 @@ func main() {
 		// ------------------------------------------------ plugin strings
 		c.Part("plugin-strings")
 		nameAlpha := []string{"a", "Z", "0", "+", "-", ".", "_"}
-		c.Bound("plugin names of length 1..3 over %v x payloads of 0..40 bytes: Parse(Encode(name,data)) == (lower(name), data) and accepted strings re-encode to themselves", nameAlpha)
+		c.Bound("plugin names of length 1..3 over %v x payloads of 0..40 bytes: Parse(Encode(name,data)) == (lower(name), data), accepted strings re-encode to themselves, and the last six parsed keys still re-encode to their strings after every later (accepted or rejected) parse", nameAlpha)
 		var names []string
 		var gn func(cur string)
 		gn = func(cur string) {
@@ -521,6 +521,11 @@ func main() {
 			}
 		}
 		gn("")
+		type keptKey struct {
+			id, name, str string
+			got, want     []byte
+		}
+		var kept []keptKey
 		for ni, name := range names {
 			if !c.MineKey(ni) {
 				continue
@@ -543,6 +548,20 @@ func main() {
 				if L%8 == 0 {
 					judge(id+".r", rs, false)
 					judge(id+".i", is, false)
+				}
+				// keys parsed earlier stay what they were, whatever is parsed (or rejected) afterwards
+				plugin.ParseRecipient(rs[:len(rs)-1] + "q")
+				for _, k := range kept {
+					c.Eval(1)
+					if !bytes.Equal(k.got, k.want) || plugin.EncodeRecipient(k.name, k.got) != k.str && plugin.EncodeIdentity(k.name, k.got) != k.str {
+						c.Fail("parsed-key-changes-after-later-parse", k.id+"/then/"+id, fmt.Sprintf("the payload returned for %q no longer re-encodes to that string after later strings were parsed", k.str), nil)
+					}
+				}
+				if err == nil && d2 != nil && d3 != nil {
+					kept = append(kept, keptKey{id + ".r", n2, rs, d2, append([]byte{}, data...)}, keptKey{id + ".i", n3, is, d3, append([]byte{}, data...)})
+					if len(kept) > 6 {
+						kept = kept[2:]
+					}
 				}
 			}
 		}
